@@ -6,6 +6,8 @@ base = set(json.load(open("/root/.vp/BASELINE.json"))["stable_pass"])
 with tempfile.TemporaryDirectory() as d:
     x = os.path.join(d, "j.xml")
     env = dict(os.environ); env.pop("PENDULUM_EXTENSIONS", None); env.pop("PYTHONPATH", None)
+    if repo != "/repo":
+        env["PYTHONPATH"] = os.path.join(repo, "src")
     subprocess.run(["/venv/bin/python", "-m", "pytest", "-q", "-p", "no:cacheprovider", "--timeout=900",
                     "--continue-on-collection-errors", f"--junitxml={x}"] , cwd=repo, env=env,
                    stdout=subprocess.DEVNULL, stderr=subprocess.DEVNULL)
